@@ -1,6 +1,8 @@
 use std::hash::Hash;
 use std::marker::PhantomData;
 
+#[cfg(feature = "verif")]
+use crate::verif::nanorand_shim as nanorand;
 use nanorand::{tls_rng, Rng};
 
 use crate::operator::{ExchangeData, KeyerFn};
